@@ -93,3 +93,17 @@ DOCUMENTED_RANDOM = {
     'utils.sensors.Sensors.generate': 'random', 'utils.sensors.Sensors.set_random_attitudes': 'random',
     'common.quaternion.Quaternion.random': 'random', 'common.quaternion.QuaternionArray.random': 'random',
 }
+
+# callables (by qualname prefix) that may read global state for a documented reason: the default date of the World
+# Magnetic Model is today's date (so are the magnetic references the estimators derive from it), Sensors draws noise
+GLOBAL_ALLOWED_PREFIX = (
+    'utils.wmm.', 'utils.sensors.', 'filters.ekf.EKF.__init__', 'filters.oleq.OLEQ.__init__', 'filters.roleq.ROLEQ.__init__',
+    'filters.triad.TRIAD.__init__', 'filters.saam.SAAM.__init__', 'filters.tilt.Tilt.__init__',
+    'common.quaternion.QuaternionArray.__new__', 'common.quaternion.Quaternion.__new__', 'common.dcm.DCM.__new__',
+    'common.dcm.rot_seq',                      # draws a random sequence when called without one (documented)
+    # static imprecision (call-graph cycle through QuaternionArray(int) -> random_attitudes): checked dynamically
+    'filters.angular.AngularRate.', 'filters.complementary.Complementary.Q',
+    # known finding (owned by C04/C06): OLEQ.estimate starts its iteration from np.random.random
+    'filters.oleq.OLEQ.', 'filters.roleq.ROLEQ.',
+)
+RANDOM_PREFIX = ('utils.sensors.',)
